@@ -123,7 +123,14 @@ pub mod bracket {
         assert!(r1.is_ok(), "interrupt entry failed");
         assert!(sim.pc == h && sim.psr().get() >> 15 == 0, "interrupt did not enter its handler in supervisor mode");
         // hypothesis: the handler (here: its first instruction) returns with RTI
-        nd::assume(sim.mem[h].get() == 0x8000);
+        // (an assumption under Kani; natively the recorded word is written there so that a
+        // counterexample replays)
+        let hw = any_word();
+        nd::assume(hw.get() == 0x8000);
+        #[cfg(kani)]
+        kani::assume(sim.mem[h] == hw);
+        #[cfg(not(kani))]
+        { sim.mem[h] = hw; }
         // step 2: RTI (the same request is still pending but no longer exceeds the priority)
         let r2 = sim.step_in();
         assert!(r2.is_ok(), "RTI from the handler failed");
